@@ -29,19 +29,33 @@ impl TraitHandler for OrdEnumHandler {
         let mut cmp_token_stream = proc_macro2::TokenStream::new();
 
         let discriminant_type = DiscriminantType::from_ast(ast)?;
+        let discriminant_values = DiscriminantType::values_from_ast(ast)?;
+
+        let mut discriminant_arms_token_stream = proc_macro2::TokenStream::new();
 
         let mut arms_token_stream = proc_macro2::TokenStream::new();
 
         let mut all_unit = true;
 
         if let Data::Enum(data) = &ast.data {
-            for variant in data.variants.iter() {
+            for (variant, discriminant_value) in data.variants.iter().zip(discriminant_values) {
                 let _ = TypeAttributeBuilder {
                     enable_flag: false, enable_bound: false
                 }
                 .build_from_attributes(&variant.attrs, traits)?;
 
                 let variant_ident = &variant.ident;
+
+                {
+                    let literal =
+                        proc_macro2::Literal::u128_unsuffixed(discriminant_value.unsigned_abs());
+
+                    discriminant_arms_token_stream.extend(if discriminant_value < 0 {
+                        quote!(Self::#variant_ident { .. } => -#literal,)
+                    } else {
+                        quote!(Self::#variant_ident { .. } => #literal,)
+                    });
+                }
 
                 let built_in_cmp: Path = syn::parse2(quote!(::core::cmp::Ord::cmp)).unwrap();
 
@@ -209,8 +223,11 @@ impl TraitHandler for OrdEnumHandler {
             cmp_token_stream.extend(quote!(::core::cmp::Ordering::Equal));
         } else {
             let discriminant_cmp = quote! {
-                unsafe {
-                    ::core::cmp::Ord::cmp(&*<*const _>::from(self).cast::<#discriminant_type>(), &*<*const _>::from(other).cast::<#discriminant_type>())
+                {
+                    let self_discriminant: #discriminant_type = match self { #discriminant_arms_token_stream };
+                    let other_discriminant: #discriminant_type = match other { #discriminant_arms_token_stream };
+
+                    ::core::cmp::Ord::cmp(&self_discriminant, &other_discriminant)
                 }
             };
 
